@@ -215,6 +215,21 @@ func (m *msModel) observe(w *ledger.World, bc *ledger.BlockCtx, o *ledger.Outcom
 		}
 	}
 
+	// a vote that counts (registered signer, valid signature, compatible, unexpired, not a repeat)
+	// must not be refused: otherwise the proposal could never be executed
+	if toMS && t.FunctionName == "vote" && o.Class == ledger.Chargeable {
+		var rv voteJSON
+		if json.Unmarshal(t.SmartContractData.InputData, &rv) == nil {
+			prev := m.lives[rv.Transfer.ClientID+"/"+rv.ProposalID]
+			reopened := prev != nil && now >= prev.expires // expired proposals are pruned lazily: re-proposing may be refused for a while
+			if wl, life, _, counts, _ := m.judge(t.ClientID, &rv, now); counts && !life.executed && !reopened {
+				pk, _ := signerPK(wl, t.ClientID)
+				if _, dup := life.voters[pk]; !dup {
+					m.violate(w, "execution", "C21/valid-vote-refused", "a counted vote (%d of %d so far) was refused: %s", len(life.voters), wl.NumRequired, errStr(o))
+				}
+			}
+		}
+	}
 	isVote := toMS && t.FunctionName == "vote" && o.Class == ledger.Success
 	var v voteJSON
 	if isVote {
@@ -593,6 +608,7 @@ var multisigScenario = ledger.Scenario{
 		p.Steps = mix(r.Child("mix"), p.Steps, genMultisig(r.Child("multisig"), p, tier))
 	},
 	Setup: func(w *ledger.World, r *ledger.Runner) []ledger.Observer {
+		setupRaw(w, r)
 		setupMultisig(w, r)
 		return []ledger.Observer{multisigOracle{m: newMsModel(true)}}
 	},
